@@ -146,6 +146,22 @@ impl RevertibleBuffer {
     pub(super) fn verif_other_rev(&self) -> u64 {
         self.state.other.rev()
     }
+
+    pub(super) fn verif_rev_mut(&mut self) -> &mut u64 {
+        &mut self.rev
+    }
+
+    pub(super) fn verif_raw_pool_storage_mut(&mut self, kind: PoolKind) -> Option<&mut PoolStorage> {
+        self.state.pools.get_mut(kind)
+    }
+
+    pub(super) fn verif_raw_clocks_mut(&mut self) -> &mut Clocks {
+        &mut self.state.clocks
+    }
+
+    pub(super) fn verif_raw_other_mut(&mut self) -> &mut OtherState {
+        &mut self.state.other
+    }
 }
 
 #[zero_copy]
